@@ -184,6 +184,7 @@ def handle_cex(ses, spec, cm, row, model, vs):
         # programs with exponential cones: exp is uninterpreted in the encoding, a model need not be a real point
         ses.stats.undecided += 1
         ses.stats.notes.append('undecided: %s/%s (abstract counterexample without a real witness)' % (spec['name'], row['label']))
+        ses.dismiss_last('model of an abstraction (uninterpreted exp) without a real witness')
         return
     if not ok:
         raise HarnessError('soundness counterexample does not reproduce on the real code: %s/%s (%s)'
